@@ -98,19 +98,37 @@ class GuardrailMetadata:
     """ List of guardrail settings """
 
 
-def has_guardrail_config(fh: BinaryIO, beacon_config_offset: int, xorkey: bytes = b"\x8a") -> bool:
-    """Return ``True`` if the beacon config patch area at `beacon_config_offset` is followed by a guardrail config.
+def has_guardrail_config(fh: BinaryIO, offset: int, known_areas: dict[int, bool] | None = None) -> bool:
+    """Return ``True`` if `offset` lies in an area that is protected with Guardrails and can be unmasked.
+
+    The area is the beacon config patch area followed by the guardrail config, a beacon config is only reported
+    for it when its checksum matches (see :func:`unmask_beacon_config`).
 
     Side effects: file handle position due to seeking
+
+    Args:
+        fh: file like object
+        offset: offset in the file object
+        known_areas: optional dictionary to remember if the area at an offset could be unmasked, saves the
+            search for the environmental key when called for several offsets
     """
-    xorred_guardconfig_starts = [xor(x, xorkey) for x in GUARD_CONFIG_STARTS]
-    size = len(xorred_guardconfig_starts[0])
-    fh.seek(beacon_config_offset + BEACON_CONFIG_PATCH_SIZE - size)
-    block = fh.read(size * 2)
-    if len(block) != size * 2:
-        return False
-    a, b = block[:size], block[size:]
-    return xor(a[::-1], b) in xorred_guardconfig_starts
+    if known_areas is None:
+        known_areas = {}
+    area_size = BEACON_CONFIG_PATCH_SIZE + GUARD_PATCH_SIZE
+    if any(unmasked and area <= offset < area + area_size for area, unmasked in known_areas.items()):
+        return True
+    start = max(0, offset - area_size + 1)
+    fh.seek(start)
+    window = io.BytesIO(fh.read(offset - start + area_size))
+    for grconfig in iter_guardrail_configs(window):
+        area = start + grconfig.beacon_config_offset
+        if not area <= offset < area + area_size:
+            continue
+        if area not in known_areas:
+            known_areas[area] = unmask_beacon_config(grconfig).unmasked_beacon_config is not None
+        if known_areas[area]:
+            return True
+    return False
 
 
 def iter_guardrail_configs(fh: BinaryIO, xorkey: bytes = b"\x8a") -> Iterator[GuardrailMetadata]:
@@ -193,27 +211,31 @@ def payload_checksum(data: bytes) -> int:
     return n
 
 
+def unmask_beacon_config(grconfig: GuardrailMetadata) -> GuardrailMetadata:
+    """Unmask the beacon config of `grconfig` by finding the environmental key, returns the same object.
+
+    If no key is found that gives the checksum of the guardrail config, `unmasked_beacon_config` remains ``None``.
+    """
+    # Unmask the beacon config, static single byte xor key should be 0x2E unless modified beacon
+    # The beacon config is still masked with the environmental key
+    grconfig.beacon_xor_key = b"\x2e"  # we currently only support the XOR default key
+    guarded_config = xor(grconfig.masked_beacon_config, grconfig.beacon_xor_key)
+
+    for xorkey in find_xor_key_candidates(io.BytesIO(guarded_config)):
+        unguarded = xor(guarded_config, xorkey)
+
+        checksum = payload_checksum(unguarded) + 1
+        log.debug("payload checksum: 0x%08x for xorkey: %r", checksum, xorkey)
+
+        if grconfig.checksum == checksum:
+            log.info("Found guardrail payload xorkey: %r", xorkey)
+            grconfig.payload_xor_key = xorkey
+            grconfig.unmasked_beacon_config = unguarded
+            break
+    # Without a valid xor key we are not able to unmask the beacon config, the guardrail config is still of use
+    return grconfig
+
+
 def iter_guardrail_configs_with_beacon(fh: BinaryIO) -> Iterator[GuardrailMetadata]:
     for grconfig in iter_guardrail_configs(fh):
-
-        # Unmask the beacon config, static single byte xor key should be 0x2E unless modified beacon
-        # The beacon config is still masked with the environmental key
-        grconfig.beacon_xor_key = b"\x2e"  # we currently only support the XOR default key
-        guarded_config = xor(grconfig.masked_beacon_config, grconfig.beacon_xor_key)
-
-        for xorkey in find_xor_key_candidates(io.BytesIO(guarded_config)):
-            unguarded = xor(guarded_config, xorkey)
-
-            checksum = payload_checksum(unguarded) + 1
-            log.debug("payload checksum: 0x%08x for xorkey: %r", checksum, xorkey)
-
-            if grconfig.checksum == checksum:
-                log.info("Found guardrail payload xorkey: %r", xorkey)
-                grconfig.payload_xor_key = xorkey
-                grconfig.unmasked_beacon_config = unguarded
-                yield grconfig
-                break
-        else:
-            # No valid xor key found, so not able to unmask the beacon config
-            # but we can still return the guardrail config
-            yield grconfig
+        yield unmask_beacon_config(grconfig)
